@@ -99,7 +99,8 @@ def build(raisers, log, bare=False, sub=False, magic=False):
             # a handler with the MAGIC NAME but declared with @observe: it is an observer, not also a static handler
             def mkmagic(nm):
                 def h(self, event):
-                    log.append(("magic", nm, event.old, event.new))
+                    # (if it were ALSO installed as a static handler it would be called a second time, with the bare new value)
+                    log.append(("magic", nm, getattr(event, "old", "<called-as-static-handler>"), getattr(event, "new", event)))
                 h.__name__ = "_%s_changed" % nm
                 return observe(nm)(h)
             ns["_%s_changed" % nm] = mkmagic(nm)
